@@ -190,7 +190,38 @@ fn case_typed<S: Spec>(sub: &str, id: u64, steps: u64, r: &mut Report) {
     }
 }
 
+/// jump()/long_jump() are steps along the same cycle: from non-zero, pairwise
+/// distinct states they must give non-zero, pairwise distinct states — also when
+/// they are the first jumps of a fresh process made on 16 threads at once
+fn jump_race(sub: &str, id: u64, r: &mut Report) {
+    let ti = super::c06::JUMP_TYPES[((id / 2) % 12) as usize];
+    let long = id % 2 == 1;
+    let exe = match std::env::current_exe() { Ok(e) => e, Err(_) => { r.inconclusive("current_exe unavailable".into()); return; } };
+    let out = std::process::Command::new(&exe).args(["--c06-race-child", &ti.to_string(), if long { "1" } else { "0" }, &id.to_string()]).output();
+    let out = match out { Ok(o) if o.status.success() => o, _ => { r.inconclusive("jump_race: child process failed".into()); return; } };
+    let mut seen = std::collections::HashSet::new();
+    for line in String::from_utf8_lossy(&out.stdout).lines() {
+        let Some(after) = line.split(' ').nth(1) else { continue };
+        r.eval();
+        if after.bytes().all(|b| b == b'0') {
+            r.violation(format!("{}:zero_state_reached_by_jump", TYPE_NAMES[ti]), sub, id, json!({"type": TYPE_NAMES[ti], "long_jump": long, "line": line,
+                "note": "first jumps of a fresh process on 16 threads"}));
+            return;
+        }
+        if !seen.insert(after.to_string()) {
+            r.violation(format!("{}:jump_merges_distinct_states", TYPE_NAMES[ti]), sub, id, json!({"type": TYPE_NAMES[ti], "long_jump": long, "line": line}));
+            return;
+        }
+    }
+    if seen.len() < 16 { r.inconclusive("jump_race: child printed too few results".into()); return; }
+    r.cov("jump_race");
+    r.distinct(hkey(&[&"jump_race", &id]));
+}
+
 fn case(sub: &str, id: u64, steps: u64, r: &mut Report) {
+    if sub == "jump_race" {
+        return jump_race(sub, id, r);
+    }
     let ti = if sub == "matrix" { id as usize } else { LINEAR_TYPES[Prng::new(id ^ 0x99).below(15) as usize] };
     with_spec!(ti, S => { if S::LINEAR { case_typed::<S>(sub, id, steps, r) } });
 }
@@ -220,6 +251,16 @@ pub fn run(ctx: &Ctx, only: Option<&Only>) -> Report {
     let inj = if ctx.scale < 1.0 { 500 } else { ctx.n(20_000, 200_000) };
     total.merge(drive(ctx, "injective", ctx.n(60, 60), secs * 0.2, |id, r| case("injective", id, inj, r)));
     total.merge(drive(ctx, "api_seeded", ctx.n(1_500, 1_500), secs * 0.1, |id, r| case("api_seeded", id, 0, r)));
+    if ctx.scale >= 1.0 {
+        total.merge(par(ctx.threads.min(4), |t, r| {
+            for k in 0..48u64 {
+                if k as usize % ctx.threads.min(4) == t {
+                    run_case("jump_race", 1000 + k, r, &|id, r: &mut Report| case("jump_race", id, 0, r));
+                }
+            }
+        }));
+        total.floor("jump_race", 40);
+    }
     total.merge(drive(ctx, "mixed_ops", ctx.n(6_000, 6_000), secs * 0.1, |id, r| case("mixed_ops", id, 0, r)));
     for &ti in &LINEAR_TYPES {
         total.floor(&format!("api_seeded:{}", TYPE_NAMES[ti]), 10);
